@@ -220,6 +220,45 @@ func c07case(c *Ctx, n int, p uint32, chunk uint32) {
 					tuples++
 					where := fmt.Sprintf("%s %s/%s E=%v flags=%v", id, v.name, field, maskDocs(e, n), fl)
 					first := true
+					if tuples%3 == 0 {
+						// a term that is not there, looked up with the recycled objects: empty in
+						// every respect, and whatever it hands out is recycled by the next request
+						guard(c.R, where+" (absent term)", func() {
+							var prePL segment.PostingsList
+							var preIt segment.PostingsIterator
+							if tuples%2 == 0 {
+								prePL, preIt = rePL, reIt
+							}
+							apl, err := dict.PostingsList([]byte("zz-absent"), ex, prePL)
+							if err != nil || apl == nil {
+								c.R.Fail("pl-err", "%s: absent term: %v", where, err)
+								return
+							}
+							if apl.Count() != 0 {
+								c.R.Fail("count", "%s: absent term: Count %d", where, apl.Count())
+							}
+							ait := apl.Iterator(fl[0], fl[1], fl[2], preIt)
+							if oi, ok := ait.(optIter); ok {
+								if d1, is1 := oi.DocNum1Hit(); is1 {
+									c.R.Fail("docnum1hit", "%s: absent term: DocNum1Hit %d", where, d1)
+								}
+								if abm := oi.ActualBitmap(); abm != nil && !abm.IsEmpty() {
+									c.R.Fail("actualbitmap", "%s: absent term: ActualBitmap %v", where, abm.ToArray())
+								}
+							}
+							var po segment.Posting
+							if tuples%4 == 0 {
+								po, err = ait.Advance(0)
+							} else {
+								po, err = ait.Next()
+							}
+							if err != nil || po != nil {
+								c.R.Fail("iter-extra", "%s: absent term yields %v, %v", where, po, err)
+							}
+							rePL, reIt = apl, ait
+							c.R.Inc("c07_absent_term_requests", 1)
+						})
+					}
 					guard(c.R, where, func() {
 						enumPaths(h, n, func(ops []int) {
 							turn++
@@ -545,10 +584,27 @@ func c07randomCase(c *Ctx, id string, rng *rand.Rand, bs []*model.Batch, modes [
 		it := pl.Iterator(fl[0], fl[1], fl[2], its[slot])
 		its[slot] = it
 		c.R.Inc("c07_reuse_requests", 1)
-		// random walk
+		if oi, ok := it.(optIter); ok && len(live) == 0 {
+			if d1, is1 := oi.DocNum1Hit(); is1 {
+				c.R.Fail("docnum1hit", "%s: no live hit but DocNum1Hit %d", where, d1)
+			}
+			if abm := oi.ActualBitmap(); abm != nil && !abm.IsEmpty() {
+				c.R.Fail("actualbitmap", "%s: no live hit but ActualBitmap %v", where, abm.ToArray())
+			}
+		}
+		// random walk; some walks are abandoned half-way (the objects are recycled
+		// by a later request in whatever state they were left)
+		abandonAfter := -1
+		if rng.Intn(4) == 0 {
+			abandonAfter = rng.Intn(3)
+		}
 		pos := 0 // index into live of the next candidate
 		lastDoc := int64(-1)
-		for {
+		for step := 0; ; step++ {
+			if step == abandonAfter {
+				c.R.Inc("c07_walks_abandoned", 1)
+				break
+			}
 			var po segment.Posting
 			var err error
 			wantIdx := -1
